@@ -270,6 +270,20 @@ def run(ctx):
         rnd = case.rnd
         t = gen_tree(rnd, rnd.choice([3, 6, 20, 60]),
                      rnd.choice([3, 12, 120]))
+        if rnd.random() < 0.03:
+            # a comb: a few parameterised members, then a long run of plain
+            # names (as the table types of real files have, only longer),
+            # possibly one level down
+            run = [(rnd.choice(NAMES), []) for _ in range(
+                rnd.choice([200, 251, 260, 300, 340]))]
+            head = [gen_tree(rnd, 3, 3, budget=12)
+                    for _ in range(rnd.randint(0, 2))]
+            tail = [gen_tree(rnd, 2, 2, budget=6)
+                    for _ in range(rnd.choice([0, 0, 1]))]
+            t = (rnd.choice(NAMES), head + run + tail)
+            if rnd.random() < 0.4:
+                t = (rnd.choice(NAMES), [(rnd.choice(NAMES), []), t])
+            ctx.count("gen:combs")
         s = reftypes.show(t)
         case.ops = [{"input": s}]
         ctx.count("cases")
